@@ -199,7 +199,10 @@ def build_doc(spec):
         doc.networks.append(net)
         for p in n.get("pops", []):
             pop = neuroml.Population(id=p["id"], component=p.get("comp", "iaf0"), size=p.get("size", 1))
-            for j in range(p.get("instances", 0)):
+            order = range(p.get("instances", 0))
+            if p.get("desc"):
+                order = reversed(order)  # the list order is part of the caller's document (not sorted by id)
+            for j in order:
                 inst = neuroml.Instance(id=j)
                 inst.location = neuroml.Location(x=float(j), y=float(2 * j), z=float(3 * j))
                 pop.instances.append(inst)
